@@ -124,6 +124,7 @@ type MuxScenario struct {
 	Monitor    int          `json:"monitor,omitempty"`    // number of snapshot captures by the monitor task
 	Clock    []int64        `json:"clock_ns,omitempty"` // planned clock jumps (C15)
 	Note     string         `json:"note,omitempty"`
+	Sched    *core.SchedPolicy `json:"sched,omitempty"` // how the driver picks among enabled operations (nil: weighted uniform)
 }
 
 // ---- per-request runtime state -------------------------------------------------
@@ -892,6 +893,7 @@ func runMuxScenario(t *testing.T, sc *MuxScenario, tape *core.Tape) (mr *muxRun)
 	}()
 	synctest.Test(t, func(t *testing.T) {
 		sim := core.NewSim(tape)
+		sim.Policy = sc.Sched
 		mr.sim = sim
 		larking.VerifYield = sim.InsertedYield
 		larking.VerifLockGate = sim.LockGate
